@@ -4,6 +4,7 @@
    xml s|k <codec|-> <tree>            -> hex(UTF-8) of the characters of the model's XMLConverter output
    spectext <tree>                     -> hex(UTF-8) of Spec text
    xmlcheck s|k <codec|-> <tree>       -> ok | bad   (Lean reader on the MODEL output = skeleton)
+   skelstrip s|k <tree>                -> ok | bad   (instance of C11_skeleton_strip: skeleton with strip = skeleton of `stripPage`d tree)
    parse s|k <hex utf-8> <tree>        -> ok | bad:<why>  (Lean reader on the IMPLEMENTATION output = skeleton)
 
    textpn 0|1 <tree>                   -> the same for a TextConverter constructed with showpageno = 0|1
@@ -187,6 +188,11 @@ def step (line : String) : String :=
     match stripFlag sf, codecOf cw, parsePages tree with
     | some strip, some codec, some ps => hexOfStr (sinkText (xmlDocWrites strip codec ps))
     | _, _, _ => "bad-op"
+  | "skelstrip" :: sf :: tree =>
+    match stripFlag sf, parsePages tree with
+    | some strip, some ps =>
+      if nodeEq (docSkeleton strip ps) (docSkeleton false (ps.map (stripPage strip))) then "ok" else "bad:differs"
+    | _, _ => "bad-op"
   | "xmlcheck" :: sf :: cw :: tree =>
     match stripFlag sf, codecOf cw, parsePages tree with
     | some strip, some codec, some ps =>
